@@ -105,7 +105,10 @@ structure Flags where
 
 /-! ### opaque string helpers -/
 
-def underscore (n : String) : Bool := n.startsWith "_"
+def underscore (n : String) : Bool :=
+  match n.toList with
+  | '_' :: _ => true
+  | _ => false
 
 /-- ast.IsExported (ASCII identifiers) -/
 def exported (n : String) : Bool :=
@@ -113,18 +116,21 @@ def exported (n : String) : Bool :=
   | c :: _ => c.isUpper
   | [] => false
 
-/-- the type component of a per-type output name: unexported -> "_" + name; lower-cased -/
-def comp (n : String) : String := (if exported n then "" else "_") ++ n.toLower
+/-- strings.ToLower (ASCII) -/
+def lower (n : String) : String := String.ofList (n.toList.map Char.toLower)
 
-def endsGo (f : String) : Bool := f.endsWith ".go"
+/-- the type component of a per-type output name: unexported -> "_" + name; lower-cased -/
+def comp (n : String) : String := (if exported n then "" else "_") ++ lower n
+
+def endsGo (f : String) : Bool := ".go".toList.isSuffixOf f.toList
 
 /-- strings.TrimSuffix(f, ".go") -/
 def stem (f : String) : String :=
-  if f.endsWith ".go" then String.ofList (f.toList.take (f.length - 3)) else f
+  if endsGo f then String.ofList (f.toList.take (f.toList.length - 3)) else f
 
 /-- findCmdLine on one `//` comment: `^//go:generate.*<cmdline>$` -/
 def isDirective (cmdline line : String) : Bool :=
-  line.startsWith "//go:generate" && (String.ofList (line.toList.drop 13)).endsWith cmdline
+  "//go:generate".toList.isPrefixOf line.toList && cmdline.toList.isSuffixOf (line.toList.drop 13)
 
 /-- an output file name `<src>.shoot<cmd>[.<ty>].go` (the sub-command is global to a run) -/
 structure OutName where
@@ -356,7 +362,7 @@ inductive Outcome where
   /-- `written`: file ↦ the types it holds; `listed`: the names printed after the success line;
       `warned`: some ⚠️ line was printed -/
   | done (written : List (OutName × List String)) (listed : List OutName) (warned : Bool)
-  deriving Repr
+  deriving Repr, DecidableEq
 
 /-- main's loop `for fname, src := range srcMap { notedownSrc(fname, src); fileNames = append(fileNames, fname) }` -/
 def mainLoop : List (OutName × List String) → List (OutName × List String) × List OutName
